@@ -79,13 +79,16 @@ def gen_case(rng, malformed=None):
                 ts = [[x, y, [3]] for x in range(4) for y in range(4) if ((x, y), 3) not in used]
                 used.update(((x, y), 3) for x in range(4) for y in range(4))
             amap.append([b, ts])
-        calls.append(dict(fn="load" if rng.random() < 0.93 else "fill", map=amap,
+        fn = "load" if rng.random() < 0.88 else "fill"
+        calls.append(dict(fn=fn, map=amap,
                           app_id=rng.choice([app_ids[0]] * 3 + [app_ids[1]]),
                           wait=rng.choice([None, True, True, False]),
                           n_tries=rng.choice([None, None, 0, 1, 2, 3]),
                           use_count=rng.choice([None, True, False, False]),
                           form="two" if (len(amap) == 1 and rng.random() < 0.3) else "one",
-                          container=rng.choice(["set", "set", "frozenset", "tuple", "list", "range"])))
+                          container=rng.choice(["set", "set", "frozenset", "tuple", "list", "range"] +
+                                               (["generator", "iter", "map", "filter"] * 2 if fn == "fill" else [])),
+                          via=rng.choice([None, None, None, "ctx", "ctx", "ctx_update"])))
     if nbin > 1 and rng.random() < 0.15:          # two paths with equal content
         binaries[1] = list(binaries[0])
     for ci in range(1, len(calls)):               # a file rebuilt between two calls on the same controller
@@ -98,9 +101,30 @@ def gen_case(rng, malformed=None):
                 if rng.random() < 0.5:            # same size, other content
                     new = [(v + 1 + rng.randrange(255)) % 256 for v in binaries[b]]
                 calls[ci]["rewrite"] = [[b, new]]
+    # state carried by the controller object: a connection that has sent many packets (the 16-bit sequence
+    # number wraps during the load), and the very same dict / set objects handed over again, changed in place
+    if rng.random() < 0.12:
+        calls[0]["seq_advance"] = 65536 - rng.randint(0, 14)
+    for ci in range(1, len(calls)):
+        prev = [j for j in range(ci) if calls[j]["container"] == "set" and calls[j].get("reuse_of") is None]
+        if prev and rng.random() < 0.2:
+            j = rng.choice(prev)
+            newmap = []
+            for b, ts in calls[j]["map"]:
+                nts = []
+                for x, y, ps in ts:
+                    keep = [p for p in ps if rng.random() < 0.6]
+                    add = [p for p in rng.sample(range(1, 18), 2) if p not in ps and not any(
+                        p in q for b2, t2 in calls[j]["map"] for x2, y2, q in t2 if (x2, y2) == (x, y))]
+                    nts.append([x, y, sorted(set(keep + add[:1]))])
+                newmap.append([b, nts])
+            calls[ci].update(map=newmap, reuse_of=j, container="set",
+                             form="two" if (calls[j]["form"] == "two" and len(newmap) == 1) else "one")
     kind = "valid"
     if malformed:
         kind = malformed
+        for k in calls:                           # (the malformations edit one call's map: no shared objects)
+            k.pop("reuse_of", None)
         call = rng.choice(calls)
         if kind == "core18":
             call["map"][0][1].append([chips[0][0], chips[0][1], [18]])
@@ -243,6 +267,32 @@ def rewrite_history():
                             use_count=False, form="one", container="tuple", rewrite=[[0, [(5 * i + 1) % 256 for i in range(20)]]]),
                        dict(fn="load", map=[[0, [[0, 0, [4]]]]], app_id=32, wait=True, n_tries=None,
                             use_count=None, form="two", container="list", rewrite=[[0, [(7 * i + 3) % 256 for i in range(20)]]])],
+                kind="valid")
+
+
+def controller_state_history():
+    """State carried by the controller object and what an application map may be made of: app id and wait taken
+    from context objects (one created before the blocks it is entered in, one changed by update_current_context),
+    a connection whose 16-bit sequence number wraps during the load, a failing load on a chip that hosts cores
+    of two binaries (the message of the error), one-shot iterables of cores, and the same set objects handed
+    over twice, changed in place in between."""
+    chips = [[x, y, [list(IDLE) for _ in range(18)]] for x, y in ((0, 0), (1, 0), (2, 3))]
+    b0, b1 = [(3 * i) % 256 for i in range(32)], [(5 * i + 2) % 256 for i in range(20)]
+    every = [[0, 0], [1, 0], [2, 3]]
+    return dict(machine=dict(buffer=16, base=0x60240000, vcpu=0xe5007000, vcpus=[[2, 3, 0xe500a000]], chips=chips,
+                             sched=[every] * 4 + [[], [], [[1, 0]], [], []]),
+                binaries=[b0, b1],
+                calls=[dict(fn="load", map=[[0, [[0, 0, [1, 2]], [1, 0, [4]]]], [1, [[0, 0, [7]], [2, 3, [9]]]]], app_id=30,
+                            wait=True, n_tries=1, use_count=False, form="one", container="set", via="ctx",
+                            seq_advance=65536 - 9),
+                       dict(fn="load", map=[[0, [[0, 0, [1, 2]], [1, 0, [4]]]]], app_id=31, wait=None, n_tries=None,
+                            use_count=None, form="one", container="set", via="ctx_update"),
+                       dict(fn="fill", map=[[1, [[0, 0, [3, 5]], [2, 3, [6]]]]], app_id=32, wait=True, n_tries=None,
+                            use_count=None, form="one", container="set", via=None),
+                       dict(fn="fill", map=[[1, [[0, 0, [5, 8]], [2, 3, [6, 10]]]]], app_id=32, wait=True, n_tries=None,
+                            use_count=None, form="one", container="set", via="ctx", reuse_of=2),
+                       dict(fn="fill", map=[[0, [[1, 0, [11, 12]], [2, 3, [13]]]]], app_id=33, wait=False, n_tries=None,
+                            use_count=None, form="two", container="generator", via=None)],
                 kind="valid")
 
 
@@ -545,8 +595,15 @@ def oracle(c, ci, k, pre, o):
     per_binary = {}
     if len(fills) != len(o["fills"]):
         found.append(("flood-fill-malformed", "the machine saw %d start packets for %d fills" % (len(o["fills"]), len(fills))))
-    for f, truth in zip(fills, o["fills"]):
+    for fi, (f, truth) in enumerate(zip(fills, o["fills"])):
         sel = selected_cores(f, universe)
+        if fi < len(k["map"]) and (k["fn"] == "fill" or n_tries >= 0):
+            # flood_fill_aplx walks the map in order: the fills of a bare flood fill, and those of the first
+            # attempt of a load, select exactly the cores of their entries
+            want_sel = {(x, y, p) for x, y, ps in k["map"][fi][1] for p in ps}
+            if sel != want_sel:
+                found.append(("fill-misses-requested-core", "fill %d selects %r, its entry names %r"
+                              % (fi, sorted(sel)[:6], sorted(want_sel)[:6])))
         bs = {named.get(core) for core in sel}
         if None in bs or len(bs) > 1:
             found.append(("fill-selects-unrequested-core", "a fill selects %r" % sorted(sel - set(named))[:4]
@@ -622,6 +679,12 @@ def oracle(c, ci, k, pre, o):
                 keys.add("error-names-wrong-cores")
             for key in sorted(keys):
                 found.append((key, "SpiNNakerLoadingError names %r, not loaded are %r" % (sorted(told), sorted(missing))))
+        # the error "names exactly the cores": its message lists the very cores of its map
+        import re as _re
+        said = sorted(tuple(int(v) for v in mt) for mt in _re.findall(r"\((\d+), (\d+), (\d+)\)", o.get("message") or ""))
+        if o.get("message") is not None and said != sorted(told):
+            found.append(("error-message-names-wrong-cores", "str(SpiNNakerLoadingError) names %r, its map %r"
+                          % (said[:8], sorted(told)[:8])))
         # a core this very call has loaded (it now holds its binary under the app id, started or waiting, and
         # did not before) must not be named
         wrongly = sorted(core for core in told & set(named)
@@ -680,7 +743,7 @@ def run(chk, args):
         for i in range(n):
             mal = MALFORMED[(i // 8) % len(MALFORMED)] if i % 8 == 7 else None
             cases.append(gen_case(chk.rng, mal))
-        fixed = [k3_history(), stale_requested_history(), rewrite_history()]
+        fixed = [k3_history(), stale_requested_history(), rewrite_history(), controller_state_history()]
         if chk.tier != "quick":
             fixed += gen_exhaustive()
         if os.path.exists(corpus_path):
@@ -706,6 +769,10 @@ def run(chk, args):
             chk.count("call:%s" % k["fn"])
             if k.get("rewrite"):
                 chk.count("calls-after-a-file-was-rewritten")
+            for opt in ("via", "seq_advance", "reuse_of"):
+                if k.get(opt) is not None:
+                    chk.count("call-option:%s" % opt)
+            chk.count("cores-as:%s" % k.get("container", "set"))
             if k["fn"] == "load":
                 chk.count("outcome:" + oc["result"][0])
                 chk.count("mode:" + ("count" if defaults(k)[2] else "state"))
@@ -777,7 +844,7 @@ def run(chk, args):
         except RuntimeError as e:
             chk.oblige("correspondence:model-evaluates", False, str(e))
     chk.coverage["rule"] = ("fault histories: machine of 1-6 chips of a pool spanning several regions (6%% a whole 4x4 "
-                            "block), buffer in {8,12,16,32,64,128,130,254,255,256}, sv->vcpu_base differing from chip to chip (80%%), core collections given as set / frozenset / tuple / list / range, 1-3 binaries of k*buffer-4/+0/+4 bytes, cores left "
+                            "block), buffer in {8,12,16,32,64,128,130,254,255,256}, sv->vcpu_base differing from chip to chip (80%%), core collections given as set / frozenset / tuple / list / range (one-shot generator / iter / map / filter for bare flood fills), app id and wait through context objects created earlier or changed by update_current_context (37%%), a connection whose sequence number wraps during the first call (12%%), the same dict / set objects handed over again after in-place changes (20%% of later calls), 1-3 binaries of k*buffer-4/+0/+4 bytes, cores left "
                             "waiting/running by earlier sessions (45%%), per-fill miss sets with rate in {0,.15,.3,.5,.8,1}, "
                             "1-3 calls on one controller (93%% load_application, both modes, wait, n_tries 0-3, one- and "
                             "two-argument forms); every 8th history malformed (%s); preceded by the K3 and the "
